@@ -14,7 +14,7 @@ from outrank.algorithms.importance_estimator import rank_features_3MR
 
 ID = 'C17'
 RULE = ('Generated: 1..30 distinct feature names (plain, annotated, interaction-like), relevance / redundancy / relation '
-        'values from {0,1}, an integer grid -2..3 (ties), [0,1], [-1,1] or [-1e6,1e6]; pair dictionaries with density '
+        'values from {0,1}, an integer grid -2..3 (ties), [0,1], [-1,1], [-1e6,1e6], near-ties 1e-8 apart or large scores (2e9) with gaps of 30; pair dictionaries with density '
         '0 / sparse / half / dense, every unordered pair either present in both orientations with one value or absent '
         '(self pairs optionally present as distractors); strategy in {median, mean, sum}; alpha, beta in '
         '{0, 1e-3, 0.5, 1, 10, 1e3}. n<=6 is drawn element-wise, n>6 is built from a PCG64 seed. Exhaustive: every '
@@ -25,7 +25,7 @@ RULE = ('Generated: 1..30 distinct feature names (plain, annotated, interaction-
         'Pipeline clause: generated CSV files (3-6 feature columns of varying dependence on a binary label, 2-3 mini-batches) are '
         'ranked in-process with --heuristic MI-numba-3mr; relevance / redundancy / relation dictionaries are rebuilt from '
         'pairwise_ranks.tsv and 3mr_ranks.tsv must be greedy-valid for them (median, alpha=beta=1).')
-ASSUMPTIONS = ['|values| <= 1e6 and alpha, beta <= 1e3, so no importance overflows (the statement is about finite scores)',
+ASSUMPTIONS = ['|values| <= 2e9 and alpha, beta <= 1e3, so no importance overflows (the statement is about finite scores)',
                'pair dictionaries are symmetric-or-absent, so the check does not depend on the (ranked, candidate) lookup orientation',
                'importance is recomputed with math.fsum / exact median; a chosen feature may fall short of the maximum by '
                '1e-9 * (max|rel| + alpha*S_red + beta*S_rel), S = max|value| (x number of ranked features for sum)',
@@ -35,7 +35,7 @@ ASSUMPTIONS = ['|values| <= 1e6 and alpha, beta <= 1e3, so no importance overflo
 NAME_POOL = ([f'f{i}' for i in range(24)] +
              ['a', 'b', 'c', 'z', 'A', 'user_id', 'label2', 'x AND y', 'u-(3; 100)', 'v-(12; 87)', 'BRAND', 'ANDROID',
               'a AND_REL b', 'feature-with-dash', '0', '1', '', ' ', 'é', 'f1_tr_sqrt', 'very_long_feature_name_' + 'x' * 40])
-MODES = ['bin', 'grid', 'unit', 'signed', 'wide']
+MODES = ['bin', 'grid', 'unit', 'signed', 'wide', 'neartie', 'bigtie']
 STRATEGIES = ['median', 'mean', 'sum']
 COEFS = [0.0, 1e-3, 0.5, 1.0, 10.0, 1e3]
 
@@ -51,6 +51,10 @@ def _value(mode):
         return st.floats(0.0, 1.0, allow_nan=False, allow_subnormal=False)
     if mode == 'signed':
         return st.floats(-1.0, 1.0, allow_nan=False, allow_subnormal=False)
+    if mode == 'neartie':   # candidates 1e-8 apart: distinguishable in double precision, not in single
+        return st.tuples(st.sampled_from([-1.0, 0.0, 0.5, 1.0, 2.0]), st.integers(0, 5)).map(lambda t: t[0] + t[1] * 1e-8)
+    if mode == 'bigtie':    # large un-normalised scores with small gaps
+        return st.tuples(st.sampled_from([2e9, -2e9, 1e8]), st.integers(0, 5)).map(lambda t: t[0] + t[1] * 30.0)
     return st.floats(-1e6, 1e6, allow_nan=False, allow_subnormal=False)
 
 
@@ -63,6 +67,10 @@ def _rng_values(rng, mode, size):
         return rng.random(size)
     if mode == 'signed':
         return rng.random(size) * 2 - 1
+    if mode == 'neartie':
+        return rng.choice([-1.0, 0.0, 0.5, 1.0, 2.0], size=size) + rng.integers(0, 6, size=size) * 1e-8
+    if mode == 'bigtie':
+        return rng.choice([2e9, -2e9, 1e8], size=size) + rng.integers(0, 6, size=size) * 30.0
     return (rng.random(size) * 2 - 1) * 1e6
 
 
